@@ -86,6 +86,7 @@ struct Case
     std::vector<Step> steps;
     std::vector<std::string> want_pos; // C02
     std::vector<int> probe;            // C12: positional indices to probe
+    int late = 0; // the last `late` entries are declared only after a first parse() on the object
 
     template <class A>
     void io(A& a)
@@ -98,6 +99,7 @@ struct Case
         a("steps", steps);
         a("want_pos", want_pos);
         a("probe", probe);
+        a("late", late);
     }
 };
 
@@ -156,6 +158,8 @@ inline std::string describe_decl(const Case& c)
             o << " group=g" << e.group % 3;
     }
     o << "} positionals=" << c.limit << (c.greedy ? " greedy" : "");
+    if (c.late)
+        o << " [last " << c.late << " declared after a first parse]";
     return o.str();
 }
 
@@ -604,10 +608,10 @@ inline Outcome model_parse(const Case& c, const Step& st)
 // ----------------------------------------------------------------------------
 // the real parser
 
-inline std::unique_ptr<nitro::options::parser> build_parser(const Case& c)
+// declares the entries [from, to) on an existing parser
+inline void declare_entries(nitro::options::parser* p, const Case& c, std::size_t from, std::size_t to)
 {
-    auto p = std::make_unique<nitro::options::parser>("prog", "about");
-    for (std::size_t i = 0; i < c.e.size(); ++i)
+    for (std::size_t i = from; i < to && i < c.e.size(); ++i)
     {
         const Entry& e = c.e[i];
         // entries live in the default group (declared through the parser or through group())
@@ -656,6 +660,14 @@ inline std::unique_ptr<nitro::options::parser> build_parser(const Case& c)
                 o.env(env_name(env_owner(c, i)));
         }
     }
+}
+
+// builds a parser with the first `upto` entries declared (all by default)
+inline std::unique_ptr<nitro::options::parser> build_parser(const Case& c,
+                                                            std::size_t upto = static_cast<std::size_t>(-1))
+{
+    auto p = std::make_unique<nitro::options::parser>("prog", "about");
+    declare_entries(p.get(), c, 0, std::min(upto, c.e.size()));
     if (c.limit < 0)
         p->accept_positionals();
     else if (c.limit > 0)
